@@ -9,6 +9,9 @@ Four correspondence streams, each judged by an independent oracle as well:
   hist   add / get_obj / filter / iteritems interleaved on ONE Tree object (the queries are served from a
          cached pygtrie that add() must invalidate): every answer against Model/ListingHist.v (no cache: a
          query is a function of the current dict) and against the sub-directory computed from the current dict.
+  routes the same real directories through the object store (build -> odb -> Tree.load / load: same pairs,
+         same oid; the empty listing in every run) and through the data index (save, save again, build_tree for
+         every prefix): every route must give the canonical identifier.
   build  real directories staged with build() under checksum_jobs x large_file_threshold x
          state-cache temperature (none / cold / warm / foreign algorithm / poisoned); observed:
          the walk order, the state answers, the delivery order of the pool, the merged dict of
@@ -42,6 +45,8 @@ RULE = (
     "re-add of an existing key with a new digest, get_obj / filter on prefixes of present keys (and absent ones), "
     "iteritems; non-trivial when a query follows a replacement that follows a query (the window in which a cached "
     "trie could be stale). "
+    "routes stream: the empty directory, a directory of empty sub-directories, nested directories and every generated "
+    "directory: build -> store -> Tree.load/load, index build -> save -> save -> build_tree(prefix) for every prefix. "
     "build stream: real directories (0-9 files, sizes 0-48, nested, odd names) x checksum_jobs "
     "{None,1,2,4} x large_file_threshold {2**20,10,0} x state {none,cold,warm,foreign,poisoned,raced (warmed by a build during which a file was replaced)} with "
     "randomised per-file hashing delays so that the pool delivers out of order. A tree case is "
@@ -1189,6 +1194,135 @@ def shrink_build(ctx, files, cfg, want):
 
 
 # ----------------------------------------------------------------------------------------------
+# stream 2b: the other routes to the identifier of a real directory - through the object store
+# (build -> odb -> Tree.load / load) and through the data index (index build -> save -> save again ->
+# build_tree for every prefix).  Every route must give the canonical identifier of the (path, digest)
+# pairs on disk, and the stored listing must re-load to the same pairs.
+
+
+def store_routes(ctx, files, empty_dirs=()):
+    """returns the list of (signature, what) problems for one directory content"""
+    from dvc_objects.fs.local import localfs
+
+    from dvc_data.hashfile import load as hload
+    from dvc_data.hashfile.build import build as hbuild
+    from dvc_data.hashfile.transfer import transfer
+    from dvc_data.hashfile.tree import Tree
+    from dvc_data.index import build as ibuild
+    from dvc_data.index import md5 as imd5
+    from dvc_data.index import save as isave
+    from dvc_data.index.save import build_tree
+
+    work = ctx.fresh("routes")
+    problems = []
+    try:
+        ws = os.path.join(work, "ws")
+        src = os.path.join(ws, "src")
+        impl.mk_tree(src, {rel: _content(c) for rel, c in files.items()})
+        for d in empty_dirs:
+            os.makedirs(os.path.join(src, *d.split("/")), exist_ok=True)
+        digests = {rel: impl.md5hex(_content(c)) for rel, c in files.items()}
+
+        def below(prefix):  # prefix: tuple of parts below src
+            n = len(prefix)
+            return [("/".join(k[n:]), h) for k, h in ((tuple(r.split("/")), h) for r, h in digests.items())
+                    if k[:n] == prefix and len(k) > n]
+
+        def canon(prefix):
+            return impl.dir_oid(below(prefix))
+
+        # ---- (1) object store: build, store, re-load
+        odb = impl.local_odb(os.path.join(work, "cache"))
+        staging, _, obj = hbuild(odb, src, localfs, "md5")
+        try:
+            res = transfer(staging, odb, {obj.hash_info}, hardlink=False)
+            if res.failed:
+                problems.append(("C03:store-reload", f"transfer of {obj.oid} from staging to the store failed: {res.failed}"))
+        except Exception as exc:  # noqa: BLE001  (transfer re-loads the listing it moves)
+            problems.append(("C03:store-transfer", f"transfer of the listing {obj.oid} ({len(digests)} entries) from staging "
+                                                f"to the store raised {exc!r}"))
+            odb.add(obj.path, obj.fs, obj.oid, hardlink=False)
+        if obj.oid != canon(()):
+            problems.append(("C03:build-oid-depends-on-configuration",
+                             f"build() gives {obj.oid}, the canonical identifier of the directory is {canon(())}"))
+        for name, loader in (("Tree.load", lambda: Tree.load(odb, obj.hash_info)), ("load", lambda: hload(odb, obj.hash_info))):
+            try:
+                t2 = loader()
+            except Exception as exc:  # noqa: BLE001
+                problems.append(("C03:store-reload", f"{name}() of the stored listing {obj.oid} "
+                                                    f"({len(digests)} entries) raised {exc!r}"))
+                continue
+            got = sorted(("/".join(k), hi.value if hi else None) for k, _, hi in t2)
+            if got != sorted(below(())):
+                problems.append(("C03:store-reload", f"{name}() of the stored listing {obj.oid} holds {got}, "
+                                                    f"the directory holds {sorted(below(()))}"))
+                continue
+            t2.digest()
+            if t2.oid != obj.oid:
+                problems.append(("C03:store-reload", f"the listing re-loaded by {name}() digests to {t2.oid}, "
+                                                    f"it was stored as {obj.oid}"))
+
+        # ---- (2) data index: save, save again, build_tree for every prefix
+        dirs = {()}
+        for rel in list(digests) + [d + "/." for d in empty_dirs]:
+            k = tuple(rel.split("/"))
+            for i in range(1, len(k)):
+                dirs.add(k[:i])
+        prefixes = sorted(dirs)
+        idx = imd5(ibuild(ws, localfs))
+        odb2 = impl.local_odb(os.path.join(work, "cache2"))
+        for rnd in (1, 2):
+            isave(idx, odb=odb2)
+            for p in prefixes:
+                hi = idx[("src", *p)].hash_info
+                got = hi.value if hi else None
+                if got != canon(p):
+                    problems.append(("C03:index-route",
+                                     f"after index save() number {rnd} the directory entry {'/'.join(('src', *p))} has "
+                                     f"identifier {got}; the canonical identifier of its (path, digest) pairs "
+                                     f"{sorted(below(p))} is {canon(p)}"))
+                    break
+        for p in prefixes:
+            _, t = build_tree(idx, ("src", *p))
+            got = sorted(("/".join(k), hi.value if hi else None) for k, _, hi in t)
+            if t.oid != canon(p) or got != sorted(below(p)):
+                problems.append(("C03:index-route",
+                                 f"build_tree(index, {'/'.join(('src', *p))}) after save() gives {t.oid} with entries {got}; "
+                                 f"the directory holds {sorted(below(p))}, canonical identifier {canon(p)}"))
+                break
+    finally:
+        impl.rm_rf(work)
+    return problems
+
+
+def run_routes_stream(ctx, specs):
+    for files, empty_dirs in specs:
+        case = {"kind": "routes", "files": files, "empty_dirs": list(empty_dirs)}
+        try:
+            problems = store_routes(ctx, files, empty_dirs)
+        except Exception as exc:  # noqa: BLE001
+            problems = [(f"C03:routes-exception:{type(exc).__name__}", f"store / index route raised {exc!r}")]
+        nested = any("/" in r for r in files) or bool(empty_dirs)
+        ctx.case(case, nontrivial=nested or not files)
+        ctx.count("routes:" + ("empty-listing" if not files else "nested" if nested else "flat"))
+        for sig in dict.fromkeys(s for s, _ in problems):
+            what = next(w for s, w in problems if s == sig)
+            small = dict(files)
+            changed = True
+            while changed and len(small) > 1:
+                changed = False
+                for rel in sorted(small):
+                    cand = {k: v for k, v in small.items() if k != rel}
+                    try:
+                        if any(s == sig for s, _ in store_routes(ctx, cand, empty_dirs)):
+                            small, changed = cand, True
+                            break
+                    except Exception:  # noqa: BLE001, S112
+                        continue
+            ctx.oracle_fail(sig, what, {"kind": "routes", "files": small, "empty_dirs": list(empty_dirs)})
+
+
+# ----------------------------------------------------------------------------------------------
 # stream 3: base library
 
 
@@ -1288,6 +1422,15 @@ def run(ctx):
     b_items = run_build_stream(ctx, dirs, per_dir=ctx.n(5, 48) if ctx.tier == "quick" else None)
     b_items += run_build_stream(ctx, special_dirs, per_dir=ctx.n(1, 6))
 
+    # the empty listing (an empty directory, and one holding only empty sub-directories) goes through the
+    # store / index routes in EVERY run, then nested directories, then the generated ones
+    route_specs = [({}, ()), ({}, ("e", "f/g")),
+                   ({"a": "610a", "z": "", "sub/b": "620a", "sub/c": "630a", "sub/deep/d": "640a"}, ()),
+                   ({"d/x": "01", "d.e/y": "02", "top": "03"}, ("d/empty",))]
+    route_specs += [(c["files"], tuple(c.get("empty_dirs", ()))) for c in corpus if c.get("kind") == "routes"]
+    route_specs += [(f, ()) for f in dirs[4:]]
+    run_routes_stream(ctx, route_specs)
+
     md5_items, json_items = run_base_stream(ctx, ctx.n(24, 150), ctx.n(40, 400))
 
     ctx.obligation("oracle:listing", not any(v.kind == "oracle" for v in ctx.violations),
@@ -1309,6 +1452,9 @@ def replay_case(ctx, case):
         return {"problems": problems, "violates": bool(problems)}
     if kind == "history":
         problems = run_history(case["ops"])[2]
+        return {"problems": problems, "violates": bool(problems)}
+    if kind == "routes":
+        problems = store_routes(ctx, case["files"], tuple(case.get("empty_dirs", ())))
         return {"problems": problems, "violates": bool(problems)}
     if kind == "build":
         files = case["files"]
